@@ -80,8 +80,24 @@ type DiskPt struct {
 	Probes []Resp `json:"probes"`
 }
 type DiskSeg struct {
-	Prog []Call    `json:"prog"`
-	Obs  []DiskObs `json:"obs"`
+	Prog  []Call    `json:"prog"`
+	Obs   []DiskObs `json:"obs"`
+	Crash string    `json:"crash,omitempty"` // the server is killed at this point of the segment's last request
+}
+
+// SegPlan: a segment's requests and, optionally, the crash point of its last request at which the
+// server is killed: the next segment's server starts on the image taken there.
+type SegPlan struct {
+	Prog  []Call
+	Crash string
+}
+
+func plain(segs [][]Call) []SegPlan {
+	var out []SegPlan
+	for _, s := range segs {
+		out = append(out, SegPlan{Prog: s})
+	}
+	return out
 }
 type DiskCase struct {
 	Store string    `json:"store"`
@@ -114,7 +130,11 @@ func (c *DiskCase) coq() string {
 			}
 			os_ = append(os_, fmt.Sprintf("(%s, %s, %s)", o.Resp.coq(), cList(pts), cResps(o.After)))
 		}
-		segs = append(segs, "("+cList(ps)+",\n   "+cList(os_)+")")
+		crash := "None"
+		if s.Crash != "" {
+			crash = "(Some " + cStr(s.Crash) + ")"
+		}
+		segs = append(segs, "("+cList(ps)+",\n   "+cList(os_)+", "+crash+")")
 	}
 	return "(" + cList(names) + ", " + cList(segs) + ")"
 }
@@ -125,15 +145,20 @@ From Emu.Common Require Import Bytes Str.
 From Emu.BT Require Import Types Server Check Disk DiskCheck.
 `
 
-func runDiskCase(segs [][]Call, tag string) *DiskCase {
+func runDiskCase(segs []SegPlan, tag string) *DiskCase {
 	dir, err := os.MkdirTemp(tmpRoot, "disk")
 	if err != nil {
 		panic(err)
 	}
 	defer os.RemoveAll(dir)
 	c := &DiskCase{Store: "leveldb-disk", Tag: tag}
-	for si, prog := range segs {
-		if si > 0 {
+	crashImg := ""
+	for si, plan := range segs {
+		prog := plan.Prog
+		if si > 0 && crashImg != "" {
+			// the previous server was killed inside its last request: start on the image taken there
+			dir, crashImg = crashImg, ""
+		} else if si > 0 {
 			// restart: the next server runs on a point-in-time image of the directory (in one process a
 			// handle leaked by DeleteTable would keep the original directory's lock)
 			next, err := os.MkdirTemp(tmpRoot, "disk")
@@ -148,7 +173,7 @@ func runDiskCase(segs [][]Call, tag string) *DiskCase {
 		}
 		e := NewEmu(bttest.LeveldbDiskStorage{Root: dir, ErrLog: func(error, string) {}})
 		seg := DiskSeg{Prog: prog}
-		for _, call := range prog {
+		for ci, call := range prog {
 			s := NewSched(e, [][]Call{{call}})
 			var o DiskObs
 			for step := 0; step < 10000; step++ {
@@ -156,6 +181,18 @@ func runDiskCase(segs [][]Call, tag string) *DiskCase {
 				if out.Kind == "at" {
 					if strings.HasPrefix(out.Point, "disk.") {
 						o.Points = append(o.Points, DiskPt{Point: out.Point, Probes: probeImage(dir)})
+						if ci == len(prog)-1 && out.Point == plan.Crash && crashImg == "" {
+							img, err := os.MkdirTemp(tmpRoot, "disk")
+							if err != nil {
+								panic(err)
+							}
+							defer os.RemoveAll(img)
+							if err := copyTree(dir, img); err != nil {
+								panic(err)
+							}
+							crashImg = img
+							seg.Crash = plan.Crash
+						}
 					}
 					continue
 				}
@@ -227,7 +264,7 @@ func genC08(out, tier string, rng *rand.Rand) {
 	if tier == "thorough" {
 		n, nseg, length = 400, 4, 10
 	}
-	var programs [][][]Call
+	var programs [][]SegPlan
 	tags := []string{}
 	// directed scenarios first: the crash points of create / clear / schema change, delete + re-create
 	t1 := tname(parentA, "t1")
@@ -235,19 +272,66 @@ func genC08(out, tier string, rng *rand.Rand) {
 		return Call{Req: Req{Kind: "mutate", Table: t1, Key: []byte(key), Muts: []Mutation{{Kind: "set", Fam: "cf", Q: []byte("q"), Ts: 1000, V: []byte(v)}, {Kind: "set", Fam: "cf2", Q: []byte("q"), Ts: 1000, V: []byte(v)}}}, Now: 5000}
 	}
 	create := Call{Req: Req{Kind: "create", Parent: parentA, Tid: "t1", Fams: []FamDef{{Name: "cf", Rule: &GcRule{Kind: "maxversions", N: 2}}, {Name: "cf2"}}}, Now: 1000}
-	programs = append(programs, [][]Call{{create, w("a", "1"), w("b", "2"), {Req: Req{Kind: "drop", Table: t1, All: true}, Now: 1}, w("c", "3")}, {w("d", "4"), {Req: Req{Kind: "drop", Table: t1, HasPfx: true, Prefix: []byte("c")}, Now: 1}}, {w("e", "5")}})
+	programs = append(programs, plain([][]Call{{create, w("a", "1"), w("b", "2"), {Req: Req{Kind: "drop", Table: t1, All: true}, Now: 1}, w("c", "3")}, {w("d", "4"), {Req: Req{Kind: "drop", Table: t1, HasPfx: true, Prefix: []byte("c")}, Now: 1}}, {w("e", "5")}}))
 	tags = append(tags, "clear")
-	programs = append(programs, [][]Call{{create, w("a", "1"), {Req: Req{Kind: "modify", Table: t1, Mods: []FMod{{Kind: "create", ID: "x", Rule: &GcRule{Kind: "maxage", Secs: 5}}, {Kind: "update", ID: "cf"}}}, Now: 1}, w("b", "2")}, {{Req: Req{Kind: "get", Table: t1}, Now: 1}, w("c", "3")}})
+	programs = append(programs, plain([][]Call{{create, w("a", "1"), {Req: Req{Kind: "modify", Table: t1, Mods: []FMod{{Kind: "create", ID: "x", Rule: &GcRule{Kind: "maxage", Secs: 5}}, {Kind: "update", ID: "cf"}}}, Now: 1}, w("b", "2")}, {{Req: Req{Kind: "get", Table: t1}, Now: 1}, w("c", "3")}}))
 	tags = append(tags, "schema")
-	programs = append(programs, [][]Call{{create, w("a", "1"), {Req: Req{Kind: "modify", Table: t1, Mods: []FMod{{Kind: "drop", ID: "cf2"}}}, Now: 1}, w("b", "2")}, {w("c", "3")}})
+	programs = append(programs, plain([][]Call{{create, w("a", "1"), {Req: Req{Kind: "modify", Table: t1, Mods: []FMod{{Kind: "drop", ID: "cf2"}}}, Now: 1}, w("b", "2")}, {w("c", "3")}}))
 	tags = append(tags, "drop-family")
-	programs = append(programs, [][]Call{{create, w("a", "1"), {Req: Req{Kind: "delete", Table: t1}, Now: 1}}, {{Req: Req{Kind: "get", Table: t1}, Now: 1}}})
+	programs = append(programs, plain([][]Call{{create, w("a", "1"), {Req: Req{Kind: "delete", Table: t1}, Now: 1}}, {{Req: Req{Kind: "get", Table: t1}, Now: 1}}}))
 	tags = append(tags, "delete-table")
-	programs = append(programs, [][]Call{{create, w("a", "1"), {Req: Req{Kind: "delete", Table: t1}, Now: 1}, create, w("b", "2")}, {w("c", "3")}})
+	programs = append(programs, plain([][]Call{{create, w("a", "1"), {Req: Req{Kind: "delete", Table: t1}, Now: 1}, create, w("b", "2")}, {w("c", "3")}}))
 	tags = append(tags, "delete-recreate")
+	// kill INSIDE a request, restart on that image and carry on (twice in a row: the second kill hits a
+	// server that itself started on a crash image)
+	del := Call{Req: Req{Kind: "delete", Table: t1}, Now: 1}
+	rd := Call{Req: Req{Kind: "read", Table: t1}, Now: 1}
+	dropAll := Call{Req: Req{Kind: "drop", Table: t1, All: true}, Now: 1}
+	dropFam := Call{Req: Req{Kind: "modify", Table: t1, Mods: []FMod{{Kind: "drop", ID: "cf2"}}}, Now: 1}
+	for _, p2 := range []string{"disk.meta.tmp", "disk.meta.renamed", "disk.db.removed", ""} {
+		programs = append(programs, []SegPlan{{Prog: []Call{create, w("a", "1"), del}, Crash: "disk.delete.undefined"}, {Prog: []Call{create}, Crash: p2}, {Prog: []Call{rd, w("b", "2")}}})
+		tags = append(tags, "kill-in-delete-then-create")
+	}
+	for _, p1 := range []string{"disk.meta.tmp", "disk.meta.renamed", "disk.db.removed"} {
+		programs = append(programs, []SegPlan{{Prog: []Call{create}, Crash: p1}, {Prog: []Call{create, w("a", "1")}}, {Prog: []Call{rd}}})
+		tags = append(tags, "kill-in-create")
+	}
+	for _, p1 := range []string{"disk.clear.closed", "disk.db.removed"} {
+		programs = append(programs, []SegPlan{{Prog: []Call{create, w("a", "1"), dropAll}, Crash: p1}, {Prog: []Call{rd, w("b", "2"), dropAll}, Crash: p1}, {Prog: []Call{rd, w("c", "3")}}})
+		tags = append(tags, "kill-in-clear")
+	}
+	for _, p1 := range []string{"disk.meta.tmp", "disk.meta.renamed"} {
+		programs = append(programs, []SegPlan{{Prog: []Call{create, w("a", "1"), dropFam}, Crash: p1}, {Prog: []Call{rd, w("b", "2")}}})
+		tags = append(tags, "kill-in-drop-family")
+	}
 	for i := 0; i < n; i++ {
-		programs = append(programs, genDiskProgram(rng, nseg, length))
-		tags = append(tags, "random")
+		segs := plain(genDiskProgram(rng, nseg, length))
+		if i%2 == 1 {
+			// every segment but the last ends with a request that has crash points and is killed at one
+			for si := 0; si < len(segs)-1; si++ {
+				var c Call
+				var pts []string
+				switch rng.Intn(5) {
+				case 0:
+					c, pts = del, []string{"disk.delete.undefined"}
+				case 1:
+					c, pts = create, []string{"disk.meta.tmp", "disk.meta.renamed", "disk.db.removed"}
+				case 2:
+					c, pts = dropAll, []string{"disk.clear.closed", "disk.db.removed"}
+				case 3:
+					c, pts = dropFam, []string{"disk.meta.tmp", "disk.meta.renamed"}
+				default:
+					c = Call{Req: Req{Kind: "modify", Table: t1, Mods: []FMod{{Kind: "create", ID: fmt.Sprintf("n%d", si)}}}, Now: 1}
+					pts = []string{"disk.meta.tmp", "disk.meta.renamed"}
+				}
+				segs[si].Prog = append(segs[si].Prog, c)
+				segs[si].Crash = pts[rng.Intn(len(pts))]
+			}
+			tags = append(tags, "random-kill")
+		} else {
+			tags = append(tags, "random")
+		}
+		programs = append(programs, segs)
 	}
 	results := make([]*DiskCase, len(programs))
 	parallelN(16, len(programs), func(i int) { results[i] = runDiskCase(programs[i], tags[i]) })
@@ -255,5 +339,5 @@ func genC08(out, tier string, rng *rand.Rand) {
 		js, _ := json.Marshal(c)
 		sink.AddPre(c.pseudo(), c.coq(), js, len(c.Segs) > 1)
 	}
-	sink.Close(fmt.Sprintf("programs of admin and data requests (create / delete / re-create tables, schema changes incl. dropped families, DropRowRange all and by prefix, row writes, read-modify-writes, forced GC) in %d segments of about %d requests on the on-disk engine; after EVERY request and at every instrumented crash point inside SetTableMeta (temp written / renamed), table create (directory removed) and Clear (closed / removed) a point-in-time copy of the directory is taken and a second server is started on it and asked for every candidate table (GetTable + full ReadRows); between segments the server is stopped and restarted on the directory (repeated crash-restart cycles); compared with the model's restart of the corresponding image and judged by the durability / crash-atomicity oracle; plus directed scenarios for each crash point; non-trivial = at least one restart", nseg, length), false)
+	sink.Close(fmt.Sprintf("programs of admin and data requests (create / delete / re-create tables, schema changes incl. dropped families, DropRowRange all and by prefix, row writes, read-modify-writes, forced GC) in %d segments of about %d requests on the on-disk engine; after EVERY request and at every instrumented crash point inside SetTableMeta (temp written / renamed), table create (leftover directory cleared / directory removed), table delete (definition removed, directory still there) and Clear (closed / removed) a point-in-time copy of the directory is taken and a second server is started on it and asked for every candidate table (GetTable + full ReadRows); between segments the server is stopped and restarted on the directory, or (tags kill-*, random-kill) KILLED at a crash point inside the segment's last request: the next segment's server starts on the image taken at that point and the program carries on, including a second kill on a server that itself started on a crash image (repeated crash-restart cycles); compared with the model's restart of the corresponding image and judged by the durability / crash-atomicity oracle; plus directed scenarios for each crash point; non-trivial = at least one restart", nseg, length), false)
 }
